@@ -348,6 +348,11 @@ pub fn gen_query(r: &mut Rng, w: &World, pc: &PluginChoice, qid: usize, failing_
         }
         q["grid_search"] = Value::Object(g);
     }
+    if r.chance(0.15) {
+        // keys are the user's too: a slash or a tilde in a key is legal JSON (and means something in JSON pointers)
+        q["speed_km/h"] = json!(r.range(20, 130));
+        q["a~1b"] = json!(format!("t{}", qid));
+    }
     if w.road_classes.is_some() && r.chance(0.4) {
         // allowed road classes (a subset may cut the destination off: a 'no path' error response)
         let n = r.range(1, 4);
@@ -399,6 +404,9 @@ pub fn gen_out_file(r: &mut Rng, w: &World) -> OutFile {
             ("Zone", json!({"optional": "request.tag0"})),
             ("_qid", json!("request._qid")),
             ("2nd_cost", json!({"optional": "route.cost.total_cost"})),
+            ("kmh", json!({"optional": "request.speed_km/h"})),
+            ("tilde", json!({"optional": "request.a~1b"})),
+            ("kmh_sum", json!({"optional": {"sum": [{"optional": "request.speed_km/h"}, {"optional": "iterations"}]}})),
         ];
         let mut idx: Vec<usize> = (0..pool.len()).collect();
         r.shuffle(&mut idx);
@@ -479,6 +487,7 @@ pub fn gen_energy(r: &mut Rng, w: &mut World) {
             battery_kwh: *r.pick(&[0.5, 2.0, 12.0, 60.0]),
             adjustment: if r.chance(0.5) { Some(many_digits(r, 1.0, 1.5)) } else { None },
             battery_unit: r.pick(&[None, None, None, Some("gallons_gasoline"), Some("gallons_diesel")]).map(|s| s.to_string()),
+            ideal_rate_configured: r.chance(0.35),
         });
     }
     let grade_unit = r.pick(&["decimal", "decimal", "percent", "millis"]).to_string();
